@@ -121,9 +121,9 @@ class Prop:
                     out.append('D:%d:%d:%d' % (micro(ref[0]), micro(ref[1]), int(round((d + delta) * 1e9))))
         # circles around the exact antipode of a position (half the globe away: the arc-sine form of the haversine is at
         # the very end of its domain there, other forms fall off it)
-        for la, lo in (rng.sample(pos, min(8, len(pos))) if pos else []):
-            alo = lo - 180.0 if lo > 0 else lo + 180.0
-            out.append('D:%d:%d:%d' % (micro(-la), micro(alo), rng.choice([1, 512 * 20000, 512 * 25000]) * UNIT))
+        for la, lo in pos:
+            alo = micro(lo) - 180000000 if lo > 0 else micro(lo) + 180000000       # (exact, in micro-degrees)
+            out.append('D:%d:%d:%d' % (-micro(la), alo, rng.choice([1, 512 * 20000, 512 * 25000]) * UNIT))
         if pos:
             la, lo = rng.choice(pos)
             out.append('D:%d:%d:0' % (micro(la), micro(lo)))              # strictness: distance 0 is not < 0
@@ -143,7 +143,10 @@ class Prop:
                 la, lo = getattr(m, 'lat', None), getattr(m, 'lon', None)
                 if la is None or lo is None:
                     continue
-                h = impl.FL.haversine(ref, (la, lo))
+                try:
+                    h = impl.FL.haversine(ref, (la, lo))
+                except Exception:  # noqa  (reported by the chain itself: "no decodable message makes a filter raise")
+                    continue
                 d = (Fraction(h) * 10 ** 9).__floor__()
                 rows.append('%s,%s,%d,%d,%d' % (p[1], p[2], micro(la), micro(lo), d))
         return ';'.join(sorted(set(rows))) or '-'
